@@ -22,6 +22,11 @@ def events_for(darsia, rng, shape, table, h, omode, kind, halo, tid, sample_sing
     cls = rng.choice([None, darsia.ScalarImage]) if kind in ("scalar", "series") else (rng.choice([None, darsia.OpticalImage]) if n == 2 else None)
     img, o, _ = build_image(darsia, rng, shape, h, omode, kind, table, cls=cls)
     cs = img.coordinatesystem
+    # a second image of the same shape with other voxel sizes and origin gets its coordinate system while the first one is in
+    # use: each coordinate system keeps describing ITS image (both are used from here on)
+    h_other = [x * f for x, f in zip(h, [3.5, 0.25, 7.0][:n])]
+    img_other, o_other, _ = build_image(darsia, rng, shape, h_other, "user", "scalar", table)
+    cs_other = img_other.coordinatesystem
     ev = []
     base = {"n": n, "shape": list(shape)}
     V = probes(shape, halo)
@@ -153,6 +158,10 @@ def events_for(darsia, rng, shape, table, h, omode, kind, halo, tid, sample_sing
         ev.append(dict(base, tid=tid, op="coordinate", form="batch-array:after-" + label, pts=P4, res=lat2(cs2.coordinate(V))))
         X2 = from_lattice(K, onew, table, h)
         ev.append(dict(base, tid=tid, op="voxel", form="batch-array:after-" + label, pts=Kl, res=np.asarray(cs2.voxel(X2)).astype(int).tolist()))
+    P4o = (4 * V).tolist()
+    ev.append(dict(base, tid=tid + ":other", op="coordinate", form="batch-array:second-system", pts=P4o, res=to_lattice(cs_other.coordinate(V), o_other, table, h_other)))
+    ev.append(dict(base, tid=tid + ":other", op="conv", **{"from": "V", "to": "X"}, form="batch:second-system", pts=P4o,
+                   res=to_lattice(darsia.make_voxel(V).to_coordinate(cs_other), o_other, table, h_other)))
     # single-point call forms on a sample
     for i in rng.sample(range(len(V)), min(sample_single, len(V))):
         v = V[i]
@@ -185,6 +194,37 @@ def run(ck, replay=None):
     darsia = import_darsia()
     rng = random.Random(ck.seed)
     quick = ck.tier == "quick"
+    # coordinate systems of two images of one shape with other voxel sizes and origins, taken and used along every
+    # interleaving of spec/TwoObjects.tla: each keeps converting for ITS image
+    from lib import twoobj
+    hists = twoobj.histories(ck)
+    ntwin = 0
+    tspecs = []
+    for shape in ((3, 4), (2, 3, 2), (5,)):
+        nd = len(shape)
+
+        def make(o, shape=shape, nd=nd):
+            f = 1.0 if o == "a" else 3.5
+            img = darsia.Image(np.zeros(shape), space_dim=nd, dimensions=[f * 0.5 * (m + 1) * shape[m] for m in range(nd)],
+                               origin=[(1.0 if o == "a" else -7.0) * (m + 1) for m in range(nd)], scalar=True)
+            return (img, img.coordinatesystem)
+
+        def use(o, obj, shape=shape, nd=nd):
+            img, cs = obj
+            V = probes(shape, 1)
+            X = np.asarray(cs.coordinate(V), dtype=float)
+            mid = np.asarray(cs.coordinate(V), dtype=float) + 0.25 * (np.asarray(cs.coordinate(V + 1), dtype=float) - np.asarray(cs.coordinate(V), dtype=float))
+            return [X, np.asarray(cs.voxel(mid), dtype=float), np.asarray(darsia.make_voxel(V).to_coordinate(cs), dtype=float),
+                    np.asarray(darsia.make_coordinate(mid).to_voxel(cs), dtype=float), np.asarray([cs.voxel_size["xyz"[c]] for c in range(nd)]),
+                    np.asarray(img.opposite_corner, dtype=float), np.asarray(cs.length(2, "x")).reshape(-1)]
+
+        def same(x, y):
+            return len(x) == len(y) and all(p_.shape == q_.shape and np.allclose(p_, q_, rtol=1e-12, atol=1e-12) for p_, q_ in zip(x, y))
+
+        sel = hists if not quick else [h for h in hists if len(h) <= 4]
+        tspecs.append((sel, "coordinatesystem-" + "x".join(map(str, shape)), make, use, same, "twin:" + "x".join(map(str, shape))))
+    ntwin = twoobj.run(ck, "C01", tspecs)
+    ck.cov["twin_object_histories"] = ntwin
     shapes = sorted(scn)
     # beyond the TLC bound (trace spec is unbounded): bigger random shapes incl. single-voxel axes
     for _ in range(6 if quick else 30):
@@ -213,9 +253,9 @@ def run(ck, replay=None):
             sig += f":{e['from']}->{e['to']}"
         # classify whether only negative (out-of-range) inputs fail
         if e["op"] != "corners":
-            wrong = [p for p, q in zip(e["pts"], e["res"]) if True]
+            wrong = [p for p, q in zip(e.get("pts", []), e.get("res", [])) if True]
         ck.violation(sig + f":{e['n']}d", f"{e['op']} {e.get('from','')}{'->' if e['op']=='conv' else ''}{e.get('to','')} disagrees with the lattice specification ({what})",
-                     dict(info[b["tid"]], op=e["op"], form=e.get("form"), clause=what,
+                     dict(info[b["tid"].split(":other")[0]], op=e["op"], form=e.get("form"), clause=what,
                           first=[(p, q) for p, q in zip(e.get("pts", []), e.get("res", []))][:3]))
     ck.cov["evaluations"] = npts
     ck.cov["distinct_nontrivial"] = len({(tuple(c[0]), tuple(c[1]), c[2]) for c in cases})
